@@ -203,6 +203,11 @@ thread_local! {
     static PARAMS_RISTRETTO: RefCell<Vec<(Config, Box<dyn Any>)>> = RefCell::new(Vec::new());
 }
 
+/// Parameter objects are shared within a run only: a run must not observe objects another run used.
+pub fn reset_params_cache() {
+    PARAMS_RISTRETTO.with(|c| c.borrow_mut().clear());
+}
+
 /// Build (or fetch a clone of) standard parameters for (bits, cap, ext) on this thread.
 pub fn std_params<G: Group>(bits: usize, cap: usize, ext: usize) -> RangeParameters<G> {
     let key = Config { bits, m: if G::IS_FREE { 0 } else { 1 }, cap, ext };
